@@ -52,6 +52,10 @@ structure Caps where
   tuples  : List Nat
   llgr    : Bool
   ltuples : List (Nat × Nat)
+  /-- families of the Multiprotocol capabilities of the OPEN -/
+  mp      : List Nat := []
+  /-- families of `tuples` whose Forwarding State bit is CLEAR -/
+  noFwd   : List Nat := []
 deriving Repr, DecidableEq, Inhabited
 
 structure Peer where
@@ -72,6 +76,11 @@ structure Peer where
   /-- peer.longLivedRunning -/
   llRun    : Bool := false
   fams     : List Fam := []
+  /-- `fsm.familyMap` (negotiatedRFList): configured ∩ the peer's Multiprotocol capabilities, set by
+  `stateChange(ESTABLISHED)` of the latest session -/
+  negotiated : List Nat := []
+  /-- GR tuples of the latest OPEN whose Forwarding State bit is clear (read from `fsm.capMap`) -/
+  fwdClear : List Nat := []
   rib      : List Route := []
   now      : Nat := 0
   /-- fsm.gracefulRestartTimer -/
@@ -206,14 +215,19 @@ def stateChangeEst (p0 : Peer) (c : Caps) : Peer :=
   let p := resetNegotiated p0
   let p1 :=
     if p.cfgGR && c.gr then
-      let fams1 := applyTuples p.fams c.tuples
+      -- GR tuples of families the session does not carry (not in configured ∩ Multiprotocol) are skipped
+      let fams1 := applyTuples p.fams (c.tuples.filter (fun t => c.mp.contains t))
       let fams2 := if p.localRestarting && c.rbit then fams1.map (fun f => { f with eor := true }) else fams1
       { p with enabled := true, restartTime := c.time, fams := fams2,
                notif := p.cfgNotif && c.nbit }
     else p
-  if p1.cfgLL && c.gr && c.llgr then
-    { p1 with longLived := true, fams := c.ltuples.foldl applyLTuple p1.fams }
-  else p1
+  let p2 :=
+    if p1.cfgLL && c.gr && c.llgr then
+      { p1 with longLived := true, fams := c.ltuples.foldl applyLTuple p1.fams }
+    else p1
+  -- open2Cap: configured families ∩ the peer's Multiprotocol capabilities
+  { p2 with negotiated := (p2.fams.map (·.id)).filter (fun f => c.mp.contains f),
+            fwdClear := if c.gr then c.noFwd else [] }
 
 /-! ### handleFSMMessage, state change (server.go) -/
 
@@ -252,16 +266,29 @@ def idlePurge (p : Peer) : Peer :=
              rib := dropFams (famIds p) p.rib }
   else p
 
-/-- `nextState == ESTABLISHED` part (only the restarting-speaker deferral matters here) -/
-def onEstablished (p0 : Peer) : Peer :=
-  -- the peer came back with no GR family to wait for: stop retaining its stale routes now
-  let p := if p0.peerRestarting && (grFams p0).isEmpty then
-      let q := stopPeerRestarting p0
-      { q with rib := dropStale q.rib }
-    else p0
+/-- families whose stale routes may be kept after re-establishment: listed in the new GR capability
+with the Forwarding State bit set -/
+def keepFams (p : Peer) : List Nat := (grFams p).filter (fun f => !p.fwdClear.contains f)
+
+/-- RFC 4724 §4.2 at re-establishment: `DropStale(others)` — the stale routes of every family that the
+new GR capability does not list, or lists with the Forwarding State bit clear, go at once -/
+def dropStaleUnlisted (p : Peer) : List Route :=
+  p.rib.filter (fun r => !(r.stale && !(keepFams p).contains r.fam))
+
+/-- ESTABLISHED while `PeerRestarting`: `stopPeerRestarting` when the new OPEN lists no GR family, and
+`DropStale(others)` -/
+def estPurge (p0 : Peer) : Peer :=
+  if p0.peerRestarting then
+    { (if (grFams p0).isEmpty then stopPeerRestarting p0 else p0) with rib := dropStaleUnlisted p0 }
+  else p0
+
+/-- ESTABLISHED, restarting-speaker part: deferral ends at once or a deferral timer starts -/
+def estDefer (p : Peer) : Peer :=
   if !p.localRestarting then p
   else if allEOR p then { p with localRestarting := false }
   else { p with defTimers := p.defTimers ++ [(p.now + p.deferral, p.deferral)] }
+
+def onEstablished (p0 : Peer) : Peer := estDefer (estPurge p0)
 
 /-- next FSM states the harness drives -/
 inductive Next where
